@@ -37,8 +37,14 @@ class RSeam(object):
 
     log entries: ('e', rate, value) / ('p', mu, value).  Logging never draws randomness."""
 
-    def __init__(self, ss_module, mode="natural", script_rng=None, faults=None, cap=None):
+    def __init__(self, ss_module, mode="natural", script_rng=None, faults=None, cap=None, sim_module=None):
         self.ss = ss_module
+        # step counter: the jump loop looks its step functions up in pygom.model.simulate at call time; counting
+        # them bounds loops that consume no random draw (a deterministic cap, independent of machine load)
+        self.sim = sim_module
+        self.steps = 0
+        self._real_first = getattr(sim_module, "firstReaction", None) if sim_module is not None else None
+        self._real_tau = getattr(sim_module, "tauLeap", None) if sim_module is not None else None
         self.mode = mode
         self.rng = script_rng
         self.faults = faults or {}
@@ -53,13 +59,30 @@ class RSeam(object):
     def install(self):
         self.ss.rexp = self.rexp
         self.ss.rpois = self.rpois
+        if self.sim is not None and self._real_first is not None and self._real_tau is not None:
+            self.sim.firstReaction = self._counted(self._real_first)
+            self.sim.tauLeap = self._counted(self._real_tau)
         self.installed = True
         return self
 
     def remove(self):
         self.ss.rexp = self._real_rexp
         self.ss.rpois = self._real_rpois
+        if self.sim is not None and self._real_first is not None and self._real_tau is not None:
+            self.sim.firstReaction = self._real_first
+            self.sim.tauLeap = self._real_tau
         self.installed = False
+
+    def _counted(self, f):
+        seam = self
+
+        def step(*a, **k):
+            seam.steps += 1
+            if seam.cap is not None and seam.steps > seam.cap:
+                raise StepCap("more than %d steps in one run" % seam.cap)
+            return f(*a, **k)
+        step.__name__ = getattr(f, "__name__", "step")
+        return step
 
     def __enter__(self):
         return self.install()
@@ -69,6 +92,7 @@ class RSeam(object):
 
     def reset_log(self):
         self.log = []
+        self.steps = 0
         self._last_exp = None
 
     def reseed(self, seed):
